@@ -36,6 +36,7 @@ func genCtlCase(t *rapid.T) CtlCase {
 			c.Reads[i] = RStep{Op: "reader", Abandon: -1, Sizes: []int{3, 100}}
 		}
 	}
+	c.EOFWith = rapid.Bool().Draw(t, "eof_with_last_bytes")
 	c.Handlers = rapid.SampledFrom([]string{"default", "default", "custom", "fail"}).Draw(t, "handlers")
 	c.FailAt = rapid.IntRange(0, 6).Draw(t, "fail_at")
 	return c
@@ -49,6 +50,7 @@ func checkC08(c CtlCase, o *Obs) error {
 		return err
 	}
 	tr.SetInput(model.Wire, c.Chunks)
+	tr.EOFWithData = c.EOFWith
 	prog := &ReadProgress{}
 	h := &handlerLog{failAt: -1, prog: prog, custom: c.Handlers == "custom", failErr: errHandler}
 	nctl := len(model.Ctl)
